@@ -95,6 +95,11 @@ pub enum Item {
 
 #[derive(Serialize, Deserialize, Debug, Clone)]
 pub struct Case {
+    /// true: no sampler is installed at all (`TraceparentFilter::new()`, what `emit_traceparent::setup()`
+    /// builds): every locally started trace is sampled, `sampler` / `sampler_default` are unused and the
+    /// sampler log must stay empty; unsampled traces then only arrive through incoming headers
+    #[serde(default)]
+    pub no_sampler: bool,
     /// sampler decision by call number; later calls get `sampler_default`
     pub sampler: Vec<bool>,
     pub sampler_default: bool,
@@ -106,6 +111,9 @@ pub struct Case {
 
 impl Case {
     pub fn decision(&self, call: usize) -> bool {
+        if self.no_sampler {
+            return true;
+        }
         self.sampler.get(call).copied().unwrap_or(self.sampler_default)
     }
 }
